@@ -374,6 +374,10 @@ def fingerprint(template):
     for k in sorted(d):
         v = d[k]
         out.append((k, id(v) if not isinstance(v, (str, int, float, type(None))) else v))
+        if isinstance(v, dict) and k != 'globals':
+            # a mapping kept on the template (hooks, memo tables): what it holds is shared state too
+            out.append((k, 'content', tuple(sorted((repr(a), id(b) if not isinstance(b, (str, int, float, type(None), bool)) else b)
+                                                   for a, b in v.items()))))
     objs = reachable(d['_v_blocks']) if '_v_blocks' in d else {}
     for i in sorted(objs):
         o = objs[i]
